@@ -4,8 +4,9 @@ use std::cell::{Cell, RefCell};
 use std::rc::{Rc, Weak};
 use std::sync::atomic::{AtomicBool, Ordering};
 use std::sync::Arc;
+use std::time::{Duration, Instant};
 use crate::polling::Poller;
-use std::slice;
+use std::{io, slice};
 use crate::list::{SourceEntry, SourceList};
 use crate::sources::{Dispatcher, EventSource, IdleDispatcher, EventDispatcher};
 use crate::sys::PollEvent;
@@ -16,6 +17,7 @@ use crate::{AdditionalLifecycleEventsSet, Poll, PostAction, Readiness, Token, To
 //@ include loop_types_body
 //@ include loop_slices_body
 //@ include loop_ops_body
+//@ include loop_lifecycle_body
 } // mod loop_logic
 pub use crate::loop_logic::RegistrationToken;
 pub mod sys {
